@@ -133,7 +133,7 @@ def client_flow(chk, wd, thorough):
     chk.cov["model_facts"]["ClientFlow"] = {"Complete": True, "Sound": facts.get("Sound") == [True], "cases": (facts.get("cases") or [0])[0], "K": k}
     o, _ = vlib.run_harness(binp, ["-cases", out, "-dir", os.path.join(wd, "cfd")], timeout=3000)
     r = json.loads(o)
-    for need in ("op:get0", "op:getAt", "op:getRef", "op:txbyid", "op:set", "op:sget0", "op:sgetRef", "op:vrowT", "op:vrowF", "accepted-altered", "rejected"):
+    for need in ("op:get0", "op:getAt", "op:getRef", "op:txbyid", "op:set", "op:sget0", "op:sgetRef", "op:vrowT", "op:vrowF", "op:vrow2T", "op:vrow2F", "accepted-altered", "rejected"):
         if not (r.get("counters") or {}).get(need):
             raise MachineryFault("client flow replay is vacuous: counter %s is zero" % need)
     vlib.absorb(chk, r)
